@@ -101,9 +101,12 @@ func (x *c18World) apply(op string) bool {
 	switch p[0] {
 	case "bundle", "cat":
 		parent := x.node(path)
-		if parent == nil || parent.Category || parent.Kids[p[2]] != nil {
+		if parent == nil || parent.Category {
 			return false
 		}
+		// creating an item under a name that is taken (two administrators with the same idea, a stale
+		// client): whatever the reply, nothing that is there may disappear
+		dup := parent.Kids[p[2]] != nil
 		var id uint32
 		if p[0] == "bundle" {
 			id = x.adm.Req(ref.TNewNewsFldr, ref.FS(ref.FFileName, p[2]), ref.F(ref.FNewsPath, ref.NewsPathBytes(path...)))
@@ -111,6 +114,9 @@ func (x *c18World) apply(op string) bool {
 			id = x.adm.Req(ref.TNewNewsCat, ref.FS(ref.FNewsCatName, p[2]), ref.F(ref.FNewsPath, ref.NewsPathBytes(path...)))
 		}
 		world.Quiet()
+		if dup {
+			break
+		}
 		if r := x.adm.Reply(id); r == nil || r.Err != 0 {
 			x.fail("create/request-failed", fmt.Sprintf("%s: %v", op, r))
 		}
